@@ -65,10 +65,14 @@ structure Cfg where
   share : Bool
   /-- F05 present: a call binds captured variables and parameters in the caller's dict -/
   leak : Bool
+  /-- F05c repaired: the body of a function item that has captured variables sees them and its
+  parameters only (`context.variables = self.variables.copy()`), not the caller's variables -/
+  lexical : Bool := false
   deriving DecidableEq, Repr, Inhabited
 
 def Cfg.pinned : Cfg := { share := true, leak := true }
-def Cfg.fixed : Cfg := { share := false, leak := false }
+/-- the reference tree: F16, F05 and F05c repaired -/
+def Cfg.fixed : Cfg := { share := false, leak := false, lexical := true }
 
 structure Flags where
   stale : Bool := false
@@ -141,7 +145,7 @@ structure ICtx where
 number of parameter tokens -/
 def FObj.arity (o : FObj) : Nat := match o.fixed with
   | some pat => holes pat
-  | none => match o.code with | .inline ps _ => ps.length | .builtin _ => 1
+  | none => match o.code with | .inline ps _ => ps.length | .builtin b => b.arity
 
 /-- `check_arguments_number`: `nargs` is `None` for a plain inline function (no check) -/
 def FObj.nargsOk (o : FObj) (n : Nat) : Bool := match o.fixed, o.code with
@@ -177,7 +181,10 @@ def currentVars (o : FObj) : IM (Option Env × Env) :=
 def runBody (c : ICtx) (D : Env) (body : Expr) (binds : List (Nat × Seq)) (env : Option Env) (lex : Env) :
     IM (Seq × Env) := do
   -- context = copy(context); context.variables.update(self.variables); context.variables[p] = v
-  let D1 := envUpdate D (binds ++ env.getD [])
+  -- F05c repaired: `if self.variables is not None: context.variables = self.variables.copy()`
+  let D1 := match cfg.lexical, env with
+    | true, some e => envUpdate e binds
+    | _, _ => envUpdate D (binds ++ env.getD [])
   let r ← ev body { item := c.item, lex := binds ++ lex, litem := none } D1
   -- with F05 the dict that was written is the caller's
   pure (r.1, if cfg.leak then r.2 else D)
@@ -190,17 +197,16 @@ def callFn (c : ICtx) (D : Env) (a : Nat) (args : List Seq) : IM (Seq × Env) :=
     -- XPathFunction.__call__: check_arguments_number, arguments into the token, evaluate
     if o.nargsOk args.length then
       let full := match o.fixed with | none => args | some pat => fill pat args
-      match full with
-      | [s] =>
+      if full.length = b.arity then
         -- `to_partial_function` replaces `select` of the copy by "yield self"; fn:exists / fn:empty
         -- evaluate through `self.select`, so a partially applied one answers `bool(self)` = true
         if o.fixed.isSome && (b == .exists_ || b == .empty_) then do
           IM.flag { misc := true }
           pure ([.bool true], D)
         else do
-          let r ← IM.lift (b.ap s)
+          let r ← IM.lift (b.ap full)
           pure (r, D)
-      | _ => IM.throw .XPTY0004
+      else IM.throw .XPTY0004
     else IM.throw .XPTY0004
   | .inline ps body =>
     if o.nargsOk args.length then do
@@ -342,11 +348,17 @@ def hofKeys (c : ICtx) (a : Nat) : Env → List (Item × List Int) → Seq → I
 def sortByKey (ks : List (Item × List Int)) : Seq :=
   (ks.mergeSort fun p q => keyLe p.2 q.2).map (·.1)
 
+/-- `get_operands`: `op1 = self.get_argument(context); if op1 is None: return None, None` — an empty
+left operand ends the evaluation before the right operand is looked at -/
 def evArith (op : AOp) (a b : Expr) (c : ICtx) (D : Env) : IM (Seq × Env) := do
   let x ← ev a c D
-  let y ← ev b c x.2
-  let r ← IM.lift (arith op x.1 y.1)
-  pure (r, y.2)
+  match arithOperand x.1 with
+  | .error e => IM.throw e
+  | .ok none => pure ([], x.2)
+  | .ok (some _) => do
+    let y ← ev b c x.2
+    let r ← IM.lift (arith op x.1 y.1)
+    pure (r, y.2)
 
 def evCompare (op : COp) (a b : Expr) (c : ICtx) (D : Env) : IM (Seq × Env) := do
   let x ← ev a c D
@@ -429,6 +441,14 @@ def step (e : Expr) (c : ICtx) (D : Env) : IM (Seq × Env) :=
     else do
       let vals ← evalList ev c fv.2 (args.filterMap id)
       callFn cfg ev c vals.2 a vals.1
+  | .spart b args =>
+    -- `name(?, v, …)`: the parser makes the call token itself a partial function; its fixed argument
+    -- tokens are evaluated at every call (the generator uses literals there: same values)
+    if args.length = b.arity then do
+      let r ← evalArgs ev c D args
+      let n ← IM.alloc { tok := none, code := .builtin b, env := none, lex := [], fixed := some r.1 }
+      pure ([.fn n], r.2)
+    else IM.throw .XPTY0004
   | .par e => ev e c D
   | .smap a b => do
     let xs ← ev a c D
